@@ -59,6 +59,7 @@ const (
 	gapOverride // the client's clock reads exactly 3 s + delta after its previous transmit stamp
 	gapReal3s   // wait in real time until the 3 s window has passed
 	gapFuture   // the client's clock reads a time after the NTP era rollover of 2036
+	gapPause    // a real pause of delta nanoseconds
 )
 
 type callScript struct {
@@ -77,6 +78,9 @@ type histScript struct {
 	v6    bool // IP over the IPv6 loopback address
 	nts   bool // IP with NTS: the server is the one the key exchange names
 	im    bool
+	lport bool          // the caller configures a non-zero local port (the clients must not use it)
+	kind  string        // case kind; "" = c03.hist
+	shift time.Duration // the client's clock (timebase) is this far from the clock that stamps the packets
 	calls []callScript
 	multi map[int]action // c03.multi: the action per server instead of per attempt
 }
@@ -239,6 +243,10 @@ func runWorker(a lib.Args, wi int) {
 			for try := 0; try < maxTries && !runMulti(w, wi); try++ {
 			}
 		}
+		for v := 0; v < numWindowVariants; v++ {
+			for try := 0; try < maxTries && !runHistory(w, genWindow(v, wi)); try++ {
+			}
+		}
 		for k := 0; k < 6; k++ {
 			theta := genThetaBase(r)
 			for try := 0; try < maxTries && !runNoFilter(w, k%2 == 1, k, theta); try++ {
@@ -333,6 +341,7 @@ func genHistory(seed uint64) *histScript {
 			hs.nts = true
 		}
 	}
+	hs.lport = r.Intn(5) < 2
 	base := genThetaBase(r)
 	mode := r.Intn(4) // 0 constant, 1 jitter, 2 steps between exchanges, 3 unrelated per exchange
 	cur := base
@@ -426,6 +435,58 @@ func genHistory(seed uint64) *histScript {
 			}
 		}
 		hs.calls = append(hs.calls, cs)
+	}
+	return hs
+}
+
+// c03.window: the server's clock sits at the edge of the window of 2^31 s around the
+// client's clock reading within which NTP timestamps are unfolded, or the
+// client's clock is far from the clock that stamps the packets.  What the code must
+// use as the reference of the unfolding is the clock reading cTxTime0 of the
+// CURRENT exchange:
+//  0..3  interleaved evaluation across whole-second boundaries: exchange 2 (interleaved
+//        request) is handled by the server with its clock 2^31 s + 0.2 s ahead
+//        (2^31 s - 3.2 s behind) of the client; its stamps are evaluated by the next
+//        call, whose clock reading is 3 s - 1 ns after exchange 2's transmit stamp:
+//        they lie in the last seconds of THAT window - and outside the window
+//        around the transmit stamp of exchange 2 itself; IP and SCION;
+//  4..6  the client's clock (timebase) reads 70 years ahead of (behind) the clock the
+//        kernel stamps packets with, the server agrees with the client's clock:
+//        the server's stamps are within reach of cTxTime0 and out of reach of the
+//        kernel transmit stamp cTxTime1; basic mode (the stored client stamps of
+//        interleaved mode would be out of reach of cTxTime0 themselves);
+//  7     as 0, with a real pause of 2.2 s instead of a scripted clock reading.
+const numWindowVariants = 8
+
+func genWindow(v, wi int) *histScript {
+	const W = time.Duration(1<<31) * time.Second
+	ms := time.Millisecond
+	jit := time.Duration(wi*7919+v*104729) * time.Microsecond % (50 * ms)
+	norm := func(th time.Duration) action { return action{kind: aNormal, theta: [2]time.Duration{th, th}} }
+	hs := &histScript{seed: uint64(v), kind: "c03.window", im: true, scion: v == 1 || v == 3 || v == 4 || v == 6, lport: (v+wi)%2 == 0}
+	switch v {
+	case 0, 1, 2, 3, 7:
+		inside, edge := W-10*time.Second-jit, W+200*ms+jit
+		if v == 2 || v == 3 {
+			inside, edge = -W+10*time.Second+jit, -W+3200*ms+jit
+		}
+		c1 := callScript{acts: []action{norm(inside), norm(edge), norm(inside)}}
+		c2 := callScript{gap: gapOverride, delta: -1, acts: []action{norm(inside), norm(inside), norm(inside)}}
+		if v == 7 {
+			c2.gap, c2.delta = gapPause, int64(2200*ms)
+		}
+		c3 := callScript{acts: []action{norm(inside), norm(inside), norm(inside)}}
+		hs.calls = []callScript{c1, c2, c3}
+	default:
+		hs.im = false
+		hs.shift = time.Duration(70*365*86400+wi*3600) * time.Second
+		if v == 6 {
+			hs.shift = -hs.shift
+		}
+		for i := 0; i < 3; i++ {
+			th := hs.shift + time.Duration(i)*jit - jit
+			hs.calls = append(hs.calls, callScript{acts: []action{norm(th), norm(th), norm(th)}})
+		}
 	}
 	return hs
 }
@@ -534,6 +595,7 @@ type cli struct {
 	zone string // interface name: requests hardware timestamping
 	v6   bool
 	nts  bool
+	port int // configured local port
 }
 
 func (c *cli) obj() any {
@@ -556,16 +618,16 @@ func scionRemote(srv int) udp.UDPAddr { return udp.UDPAddr{IA: theIA, Host: theP
 
 func (c *cli) measure(ctx context.Context, srv int) (time.Time, time.Duration, error) {
 	if c.sc == nil {
-		la, ra := &net.UDPAddr{IP: localAddr.IP, Zone: c.zone}, thePeer.addr(srv)
+		la, ra := &net.UDPAddr{IP: localAddr.IP, Zone: c.zone, Port: c.port}, thePeer.addr(srv)
 		if c.v6 {
-			la, ra = &net.UDPAddr{IP: localAddr6.IP}, thePeer.addr6(srv)
+			la, ra = &net.UDPAddr{IP: localAddr6.IP, Port: c.port}, thePeer.addr6(srv)
 		}
 		if c.nts {
 			ra = thePeer.addr(0) // the configured address; the key exchange decides
 		}
 		return client.MeasureClockOffsetIP(ctx, log0, c.ip, la, ra)
 	}
-	la := udp.UDPAddr{IA: theIA, Host: &net.UDPAddr{IP: append(net.IP(nil), localAddr.IP...), Zone: c.zone}}
+	la := udp.UDPAddr{IA: theIA, Host: &net.UDPAddr{IP: append(net.IP(nil), localAddr.IP...), Zone: c.zone, Port: c.port}}
 	p := spath.Path{Src: theIA, Dst: theIA, DataplanePath: spath.Empty{}, NextHop: thePeer.addr(srv)}
 	ts, off, err := client.MeasureClockOffsetSCION(ctx, log0, []*client.SCIONClient{c.sc}, la, scionRemote(srv), []snet.Path{p})
 	if err == nil && ts.IsZero() {
@@ -576,8 +638,25 @@ func (c *cli) measure(ctx context.Context, srv int) (time.Time, time.Duration, e
 
 var errNoMeasurement = errors.New("no measurement")
 
+// a port that is free right now, for a caller that "configures" its local port
+func freePort(v6 bool) int {
+	ip := localAddr.IP
+	if v6 {
+		ip = localAddr6.IP
+	}
+	c, err := net.ListenUDP("udp", &net.UDPAddr{IP: ip})
+	if err != nil {
+		return 0
+	}
+	defer c.Close()
+	return c.LocalAddr().(*net.UDPAddr).Port
+}
+
 func newClient(hs *histScript, filter bool) *cli {
 	c := &cli{v6: hs.v6, nts: hs.nts}
+	if hs.lport {
+		c.port = freePort(hs.v6)
+	}
 	var f measurements.Filter
 	if filter {
 		f = recFilter{}
@@ -604,6 +683,14 @@ func runHistory(w *lib.Writer, hs *histScript) bool {
 	snapPrev := func() prevSnap { return snapPrevOf(c.obj()) }
 	rec.snap = snapPrev
 	thePeer.begin(hs)
+	rec.mu.Lock()
+	rec.shift = hs.shift
+	rec.mu.Unlock()
+	defer func() {
+		rec.mu.Lock()
+		rec.shift = 0
+		rec.mu.Unlock()
+	}()
 	rec.take()
 
 	tags := map[string]bool{}
@@ -618,6 +705,8 @@ func runHistory(w *lib.Writer, hs *histScript) bool {
 		switch cs.gap {
 		case gapShort:
 			time.Sleep(time.Duration(1+i%4) * time.Millisecond)
+		case gapPause:
+			time.Sleep(time.Duration(cs.delta))
 		case gapReal3s:
 			if before.ref != "" {
 				tags["real3s"] = true
@@ -894,7 +983,7 @@ func runHistory(w *lib.Writer, hs *histScript) bool {
 	stat.portPairs += hPairs
 	stat.samePorts += hSame
 	for t, on := range map[string]bool{"scion": hs.scion, "ip": !hs.scion, "ipv6": hs.v6, "nts": hs.nts, "hbhopt": hs.hbh,
-		"im": hs.im, "noim": !hs.im, "nt": ntHist, fmt.Sprintf("tsopt%d", hs.tsopt): hs.tsopt != 0} {
+		"im": hs.im, "noim": !hs.im, "nt": ntHist, "localport": hs.lport, "clockshift": hs.shift != 0, fmt.Sprintf("tsopt%d", hs.tsopt): hs.tsopt != 0} {
 		if on {
 			tags[t] = true
 		}
@@ -904,7 +993,11 @@ func runHistory(w *lib.Writer, hs *histScript) bool {
 		tl = append(tl, t)
 	}
 	args := lib.V(lib.Bool(hs.scion), lib.Bool(hs.im), lib.L(callsIn...), lib.L(xds...), "1", lib.U(hs.seed))
-	w.Case("c03.hist", strings.Join(sortStrings(tl), ","), args, lib.V(callsOut...))
+	kind := hs.kind
+	if kind == "" {
+		kind = "c03.hist"
+	}
+	w.Case(kind, strings.Join(sortStrings(tl), ","), args, lib.V(callsOut...))
 	return true
 }
 
